@@ -2,7 +2,7 @@
    non-vacuity Examples at the end. *)
 From Coq Require Import List ZArith Bool Lia.
 From Verif Require Import C16.Model C16.Spec C16.ModelArb C16.SpecArb
-  C16.Proofs_Evict C16.Proofs_Limiter C16.Proofs_Seq C16.Proofs_Arb C16.Proofs_Arb2 C16.Proofs_Arb3 C16.Proofs_Arb4.
+  C16.Proofs_Evict C16.Proofs_Limiter C16.Proofs_Seq C16.Proofs_Arb C16.Proofs_Arb2 C16.Proofs_Arb3 C16.Proofs_Arb4 C16.Proofs_Trace.
 Import ListNotations.
 Open Scope Z_scope.
 
@@ -117,6 +117,15 @@ Theorem c16_seq_caps : forall dry c reqs order,
   /\ (dry = true -> calls s = []).
 Proof. exact pe_seq_caps. Qed.
 Print Assumptions c16_seq_caps.
+
+(* the decision procedure that bin/check evaluates on the implementation's observables (caps,
+   counters = issued, refusal without side effect, dry-run silent; Spec.evict_code) holds of the
+   model's own trace for EVERY PodEvictor case: any requests, caps, dry-run flag and any schedule
+   at the granularity of the harness (Extract: run_case = flatten model_trace, prop_case = evict_code) *)
+Theorem c16_podevictor_model_ok : forall e,
+  e_lim e = false -> caps_nonneg (e_caps e) -> evict_code e (model_trace e) = 0.
+Proof. exact pe_model_trace_ok. Qed.
+Print Assumptions c16_podevictor_model_ok.
 
 Theorem c16_refusal_frame : forall dry c reqs s i,
   pc_of s i = PStart -> pc_of (pe_step dry c reqs s i) i = PRefused ->
